@@ -2,6 +2,11 @@ package main
 
 var dbPkgs = []string{"db19/...", "dbms/..."}
 
+// the chunk size of memory mapped files is a build-time constant (64 MB): the H4 builds use
+// 128 KB so that databases of a few hundred KB span several chunks (chunk boundaries in
+// allocation, state search, crash images)
+const h4const = "db19/stor/mmapstor.go:mmapChunkSize=131072"
+
 var props = map[string]propDef{
 	"C17": {
 		ID: "C17", Harness: "h1pq", Mode: "C17", Pkgs: []string{"util/queue"},
@@ -74,42 +79,42 @@ var props = map[string]propDef{
 		Comps:  map[string]string{"db19.Timestamp / ticker / StartTimestamps": "real", "core.Thread.Timestamp / tsExpire": "real", "core.SuDate / SuTimestamp arithmetic and comparison": "real", "client-server transport": "stub: IDbms.Timestamp calls db19.Timestamp directly", "clock": "simulated (bubble clock + injected skew)"},
 	},
 	"C04": {
-		ID: "C04", Harness: "h4dura", Mode: "C04", Pkgs: dbPkgs,
+		ID: "C04", SetConst: h4const, Harness: "h4dura", Mode: "C04", Pkgs: dbPkgs,
 		QuickS: 60, ThoroughS: 1200, Recycle: 60, Level: "exploration",
 		Rule: "each run: a generated history of 5-40 operations on a real memory mapped database file in a scratch directory: admin requests (create / ensure / alter create|drop|rename / rename / view / drop, valid and invalid, with foreign keys incl. self references and requests that must be refused), sequential transactions (insert / update / delete incl. cascades and large records), explicit persists, think times up to 70 s (ticker persists, chain flattening), clean restarts; knobs: persist interval 0.3-60 s, btree split 4-100, hash degraded to 64/16/6 bits, 1-4 workers; the tape decides every interleaving of the driver task with checker, merger, workers, tickers and the storage flusher. Oracle: full snapshot (schema text, columns, indexes, foreign key links both ways, views, info entries, rows through every index with offsets, counts) before every clean close equals the snapshot after reopen; rows equal the model. Non-trivial: at least 2 states were persisted and at least one table exists at the end. Distinct: run digest.",
 		Assume: h4assume,
 		Comps: map[string]string{"db19 incl. stor.MmapStor on a real file, repair, checkdb": "real", "db19/tools (dump, load, compact)": "real", "dbms/query admin parser + DoAdmin": "real", "client concurrency": "one sequential driver task (background pipeline tasks are concurrent)", "query engine / interpreter / triggers": "stub: MakeSuTran returns an empty SuTran", "sync, atomics, channels, select, time, rand, maphash, log": "simulated seams (simrt)"},
 	},
 	"C21": {
-		ID: "C21", Harness: "h4dura", Mode: "C21", Pkgs: dbPkgs,
+		ID: "C21", SetConst: h4const, Harness: "h4dura", Mode: "C21", Pkgs: dbPkgs,
 		QuickS: 60, ThoroughS: 1200, Recycle: 60, Level: "exploration",
 		Rule: "each run: a generated history of 5-40 operations on a real memory mapped database file in a scratch directory: admin requests (create / ensure / alter create|drop|rename / rename / view / drop, valid and invalid, with foreign keys incl. self references and requests that must be refused), sequential transactions (insert / update / delete incl. cascades and large records), explicit persists, think times up to 70 s (ticker persists, chain flattening), clean restarts; knobs: persist interval 0.3-60 s, btree split 4-100, hash degraded to 64/16/6 bits, 1-4 workers; the tape decides every interleaving of the driver task with checker, merger, workers, tickers and the storage flusher. Oracle after every admin request: refused => snapshot unchanged; succeeded => must-fail rules not violated, every table has a key, index columns exist, Fk/FkToHere mutually consistent with correct index numbers, schema and info tables agree, rows through every index equal the model, schema text re-parses; differential check across restart. Non-trivial: at least 2 states were persisted and at least one table exists at the end. Distinct: run digest.",
 		Assume: h4assume,
 		Comps: map[string]string{"db19 incl. stor.MmapStor on a real file, repair, checkdb": "real", "db19/tools (dump, load, compact)": "real", "dbms/query admin parser + DoAdmin": "real", "client concurrency": "one sequential driver task (background pipeline tasks are concurrent)", "query engine / interpreter / triggers": "stub: MakeSuTran returns an empty SuTran", "sync, atomics, channels, select, time, rand, maphash, log": "simulated seams (simrt)"},
 	},
 	"C19": {
-		ID: "C19", Harness: "h4dura", Mode: "C19", Pkgs: dbPkgs,
+		ID: "C19", SetConst: h4const, Harness: "h4dura", Mode: "C19", Pkgs: dbPkgs,
 		QuickS: 60, ThoroughS: 1200, Recycle: 60, Level: "exploration",
 		Rule: "each run: a generated history of 5-40 operations on a real memory mapped database file in a scratch directory: admin requests (create / ensure / alter create|drop|rename / rename / view / drop, valid and invalid, with foreign keys incl. self references and requests that must be refused), sequential transactions (insert / update / delete incl. cascades and large records), explicit persists, think times up to 70 s (ticker persists, chain flattening), clean restarts; knobs: persist interval 0.3-60 s, btree split 4-100, hash degraded to 64/16/6 bits, 1-4 workers; the tape decides every interleaving of the driver task with checker, merger, workers, tickers and the storage flusher. Oracle: stepping with Asof(-1) from the current state visits exactly the persisted states in reverse order with non-decreasing times inside their observed bounds and the contents persisted at each; Asof(t) for tape-chosen t lands on max{i: t_i <= t} (or the first state); live and after reopen. Non-trivial: at least 2 states were persisted and at least one table exists at the end. Distinct: run digest.",
 		Assume: h4assume,
 		Comps: map[string]string{"db19 incl. stor.MmapStor on a real file, repair, checkdb": "real", "db19/tools (dump, load, compact)": "real", "dbms/query admin parser + DoAdmin": "real", "client concurrency": "one sequential driver task (background pipeline tasks are concurrent)", "query engine / interpreter / triggers": "stub: MakeSuTran returns an empty SuTran", "sync, atomics, channels, select, time, rand, maphash, log": "simulated seams (simrt)"},
 	},
 	"C20": {
-		ID: "C20", Harness: "h4dura", Mode: "C20", Pkgs: dbPkgs,
+		ID: "C20", SetConst: h4const, Harness: "h4dura", Mode: "C20", Pkgs: dbPkgs,
 		QuickS: 60, ThoroughS: 1200, Recycle: 60, Level: "exploration",
 		Rule: "each run: a generated history of 5-40 operations on a real memory mapped database file in a scratch directory: admin requests (create / ensure / alter create|drop|rename / rename / view / drop, valid and invalid, with foreign keys incl. self references and requests that must be refused), sequential transactions (insert / update / delete incl. cascades and large records), explicit persists, think times up to 70 s (ticker persists, chain flattening), clean restarts; knobs: persist interval 0.3-60 s, btree split 4-100, hash degraded to 64/16/6 bits, 1-4 workers; the tape decides every interleaving of the driver task with checker, merger, workers, tickers and the storage flusher. Oracle at the end of the history: DumpDatabase+LoadDatabase, Compact (on a copy) and DumpTable+LoadTable each yield a database that opens, passes the full check and has the same tables, columns, indexes, foreign keys, views and rows as the original. Non-trivial: at least 2 states were persisted and at least one table exists at the end. Distinct: run digest.",
 		Assume: h4assume,
 		Comps: map[string]string{"db19 incl. stor.MmapStor on a real file, repair, checkdb": "real", "db19/tools (dump, load, compact)": "real", "dbms/query admin parser + DoAdmin": "real", "client concurrency": "one sequential driver task (background pipeline tasks are concurrent)", "query engine / interpreter / triggers": "stub: MakeSuTran returns an empty SuTran", "sync, atomics, channels, select, time, rand, maphash, log": "simulated seams (simrt)"},
 	},
 	"C05": {
-		ID: "C05", Harness: "h4dura", Mode: "C05", Pkgs: dbPkgs,
+		ID: "C05", SetConst: h4const, Harness: "h4dura", Mode: "C05", Pkgs: dbPkgs,
 		QuickS: 90, ThoroughS: 1200, Recycle: 60, Level: "fault_enumeration",
 		Rule: "each run: a generated history of 5-40 operations on a real memory mapped database file in a scratch directory: admin requests (create / ensure / alter create|drop|rename / rename / view / drop, valid and invalid, with foreign keys incl. self references and requests that must be refused), sequential transactions (insert / update / delete incl. cascades and large records), explicit persists, think times up to 70 s (ticker persists, chain flattening), clean restarts; knobs: persist interval 0.3-60 s, btree split 4-100, hash degraded to 64/16/6 bits, 1-4 workers; the tape decides every interleaving of the driver task with checker, merger, workers, tickers and the storage flusher. Oracle: 1-3 crash images (file bytes [0,Size()) at tape-chosen scheduler steps) plus the cleanly closed file, each truncated at structural offsets +-1, bytes inside the last state records and markers, and tape-chosen offsets, with the tail absent / zero filled / garbage (<=150 damaged files per run): open must return an error (or open a clean earlier file to that close's contents), check and repair must return without panicking; if a completely written state record lies below the truncation point repair must succeed, the result must open, pass the full check and hold exactly the contents persisted with the newest such record; otherwise repair must fail. Non-trivial: at least 2 states were persisted and at least one table exists at the end. Distinct: run digest.",
 		Assume: h4assume,
 		Comps: map[string]string{"db19 incl. stor.MmapStor on a real file, repair, checkdb": "real", "db19/tools (dump, load, compact)": "real", "dbms/query admin parser + DoAdmin": "real", "client concurrency": "one sequential driver task (background pipeline tasks are concurrent)", "query engine / interpreter / triggers": "stub: MakeSuTran returns an empty SuTran", "sync, atomics, channels, select, time, rand, maphash, log": "simulated seams (simrt)"},
 	},
 	"H4ALL": {
-		ID: "H4ALL", Harness: "h4dura", Mode: "ALL", Pkgs: dbPkgs,
+		ID: "H4ALL", SetConst: h4const, Harness: "h4dura", Mode: "ALL", Pkgs: dbPkgs,
 		QuickS: 60, ThoroughS: 1200, Recycle: 40, Level: "exploration",
 		Rule: "development: all H4 oracles", Assume: h4assume,
 	},
